@@ -21,7 +21,7 @@ ID = "C15"
 LEVEL = "exploration"
 RULE = (
     "input = random bytes (0..300) | truncation / 1..5-octet tag-aware mutation / FF run / insertion / deletion / tag swap of a genuine message (28 fixture messages, generated lists of the three vendors in both forms, "
-    "Kaifa list-1 messages whose register holds '(' / ')' octets, P1 blocks) | ASCII fragment over 0-9 . : - ( ) * CR LF with unbalanced parentheses and trailing garbage | size sweep to 8 KiB; "
+    "Kaifa list-1 messages whose register holds '(' / ')' octets, P1 blocks) | ASCII fragment over 0-9 . : - ( ) * CR LF with unbalanced parentheses and trailing garbage, numeric extremes (inf, nan, 1e309, 400 digits) in unit-converted values | structured junk (well-formed Kaifa value lists of undocumented lengths, frames with other LLC octets, unknown Kamstrup OBIS, null APDU date-time, FF date-time fields) | size sweep to 8 KiB; "
     "each input is given to an AutoDecoder in each of the 8 remembered-decoder states (fresh + primed with a genuine message of each of the 7 decoders), through decode_message_payload and through "
     "decode_message(DlmsMessage / DataReadout). evaluations = monitored calls; distinct non-trivial = distinct (input, state) pairs where the input is not itself a genuine message."
 )
@@ -130,8 +130,11 @@ def make_input(rng, genuine):
         label, fam, form, data = rng.choice(genuine)
         out, kind = pool.mutate(rng, data)
         return out, ("p1_mutation" if fam == "P1" else "mutation:" + kind)
+    if r < 0.82:
+        return pool.ascii_fragment(rng)
     if r < 0.92:
-        return pool.ascii_fragment(rng), "ascii"
+        data, kind = pool.structured_junk(rng)
+        return data, "structured:" + kind
     if r < 0.96:
         label, fam, form, data = rng.choice(genuine)
         return data, "genuine"
@@ -161,6 +164,8 @@ def run(shard, ctx):
             ctx.count("input_" + kind.split(":")[0])
             if kind.startswith("mutation:"):
                 ctx.count("mutation_" + kind.split(":")[1])
+            if kind.startswith("structured:"):
+                ctx.count("structured_" + kind.split(":")[1])
             states = STATES if i % 3 == 0 else (None, rng.choice(pool.DECODER_NAMES))
             h.probe(data, kind.split(":")[0], states)
             ctx.evaluations += 0
@@ -184,6 +189,6 @@ def replay(case, ctx):
 
 def finalize(agg, tier):
     c = agg["counters"]
-    reasons = [f"workload never produced '{k}'" for k in ["monitored_calls", "memory_samples", "input_ascii", "input_sweep", "input_random", "mutation_truncate", "mutation_ff_run", "returned_dict", "returned_none"]
+    reasons = [f"workload never produced '{k}'" for k in ["monitored_calls", "memory_samples", "input_ascii", "input_sweep", "input_random", "input_structured", "structured_kaifa_odd_length", "structured_llc_variant", "mutation_truncate", "mutation_ff_run", "returned_dict", "returned_none"]
                + [f"state_{n}" for n in pool.DECODER_NAMES] if c.get(k, 0) == 0]
     return {"step_budget": "50000 + 2000 x len(input)"}, reasons
